@@ -8,7 +8,6 @@ import (
 
 	"github.com/paulmach/orb"
 	"github.com/paulmach/orb/geo"
-	"github.com/paulmach/orb/planar"
 	"github.com/paulmach/orb/resample"
 
 	"verif/lib/ev"
@@ -26,8 +25,8 @@ type dfn struct {
 }
 
 var dfs = []dfn{
-	{"planar", planar.Distance, true, 1},
-	{"3x planar", func(a, b orb.Point) float64 { return 3 * planar.Distance(a, b) }, true, 3},
+	{"planar", dist, true, 1},
+	{"3x planar", func(a, b orb.Point) float64 { return 3 * dist(a, b) }, true, 3},
 	{"geo.Distance", geo.Distance, false, 0},
 }
 
@@ -36,7 +35,7 @@ func isInt(f float64) bool { return f == math.Trunc(f) }
 // position at euclidean arc length s along ls
 func at(ls orb.LineString, s float64) orb.Point {
 	for i := 1; i < len(ls); i++ {
-		d := planar.Distance(ls[i-1], ls[i])
+		d := dist(ls[i-1], ls[i])
 		if s <= d && d > 0 {
 			t := s / d
 			return orb.Point{ls[i-1][0] + t*(ls[i][0]-ls[i-1][0]), ls[i-1][1] + t*(ls[i][1]-ls[i-1][1])}
@@ -51,7 +50,7 @@ func param(ls orb.LineString, p orb.Point, from float64) float64 {
 	acc := 0.0
 	for i := 1; i < len(ls); i++ {
 		a, b := ls[i-1], ls[i]
-		d := planar.Distance(a, b)
+		d := dist(a, b)
 		if d > 0 {
 			t := ((p[0]-a[0])*(b[0]-a[0]) + (p[1]-a[1])*(b[1]-a[1])) / (d * d)
 			t = math.Max(0, math.Min(1, t))
@@ -64,6 +63,12 @@ func param(ls orb.LineString, p orb.Point, from float64) float64 {
 		acc += d
 	}
 	return -1
+}
+
+// dist is the check's own euclidean distance (the one the checks pass to the library as DistanceFunc and use in their oracles).
+func dist(a, b orb.Point) float64 {
+	dx, dy := a[0]-b[0], a[1]-b[1]
+	return math.Sqrt(dx*dx + dy*dy)
 }
 
 func main() {
@@ -95,7 +100,7 @@ func main() {
 		L := 0.0
 		allEq, zeroSeg, segs, intLen := true, false, 0, true
 		for i := 1; i < n; i++ {
-			d := planar.Distance(ls[i-1], ls[i])
+			d := dist(ls[i-1], ls[i])
 			if !isInt(d) {
 				intLen = false
 			}
@@ -250,12 +255,12 @@ func main() {
 		}
 		total := 0.0
 		for i := 1; i < len(ls); i++ {
-			total += planar.Distance(ls[i-1], ls[i])
+			total += dist(ls[i-1], ls[i])
 		}
 		q := new(big.Rat).Quo(new(big.Rat).SetFloat64(total), new(big.Rat).SetFloat64(d))
 		nExact := int(new(big.Int).Quo(q.Num(), q.Denom()).Int64()) + 1
 		nFloat := int(math.Floor(total/d)) + 1
-		out := resample.ToInterval(ls.Clone(), planar.Distance, d)
+		out := resample.ToInterval(ls.Clone(), dist, d)
 		if len(out) != nExact && len(out) != nFloat {
 			c.Failf("count", "ToInterval(%v, d=%v) returned %d points; length/d = %v gives floor+1 = %d (exact quotient: %d)", ls, d, len(out), total/d, nFloat, nExact)
 			return
